@@ -160,7 +160,15 @@ def run_shard(spec):
                 res['nontrivial'].add('%s|%d|%s|%s|dev%d' % (opname, size, pos, kind, hit))
             ad = AddressDescriptor()
             ad.paddress.physicaladdress = addr
-            ops.append([opname, addr, size, value if is_write else None])
+            # the other fields of the descriptor (security attribute of the address, memory attributes) are not part of the
+            # routing: a Non-secure access to the same physical address reaches the same bytes
+            ns_attr = 1 if rng.random() < 0.3 else 0
+            ad.paddress.ns = ns_attr
+            if ns_attr:
+                bump('accesses_with_ns_attribute')
+                ad.memattrs.shareable = bool(rng.randrange(2))
+                ad.memattrs.outershareable = bool(rng.randrange(2))
+            ops.append([opname, addr, size, value if is_write else None, ns_attr])
             replay = dict(devs=devs, ops=list(ops))
             mech = '%s|%s' % (opname, 'unmapped' if hit is None else ('straddle' if straddle else 'inside'))
             try:
@@ -240,9 +248,10 @@ def replay(data):
     hub = MemoryControllerHub.from_memory_list([dict(mem_type='RAM', beginning=b, end=e) for b, e in devs])
     sizes = [e - b for b, e in devs]
     out = dict(evaluations=len(rp['ops']), violations=[])
-    for opname, addr, size, value in rp['ops']:
+    for opname, addr, size, value, *rest in rp['ops']:
         ad = AddressDescriptor()
         ad.paddress.physicaladdress = addr
+        ad.paddress.ns = rest[0] if rest else 0
         try:
             if opname == 'write':
                 hub[ad, size] = value
